@@ -78,6 +78,34 @@ def _split_factors(t):
     return coef, out
 
 
+def _reduce_root_squares(dd):
+    """Denominator factor s^2 for a square-root symbol s (s*s == t) is replaced by its radicand t."""
+    if not _ctx.has_current():
+        return dd
+    roots = getattr(_ctx.current(), "_root_defs", None)
+    if not roots:
+        return dd
+    out = dict(dd)
+    for k, m in dd.items():
+        if m >= 2 and k in roots and roots[k][1] == 2:
+            t = roots[k][0]
+            pairs = m // 2
+            if m % 2:
+                out[k] = 1
+            else:
+                del out[k]
+            coef, facs = _split_factors(t)
+            if coef != 1:
+                continue_ok = False
+                # keep it simple: a numeric coefficient in the radicand is rare; fall back to no reduction
+                out[k] = m
+                continue
+            for ft, fm in facs:
+                fk = _factor_key(ft)
+                out[fk] = out.get(fk, 0) + fm * pairs
+    return out
+
+
 def _dmerge_max(a, b):
     if a is b or not b:
         return a
@@ -226,8 +254,12 @@ class R:
         if not a.d and not b.d:
             return R(n=a.n * b.n, d=())
         dd = dict(a.d)
+        sq = False
         for k, m in b.d:
             dd[k] = dd.get(k, 0) + m
+            sq = sq or dd[k] >= 2
+        if sq:
+            dd = _reduce_root_squares(dd)
         return R(n=a.n * b.n, d=tuple(sorted(dd.items())))
 
     __rmul__ = __mul__
@@ -266,6 +298,8 @@ class R:
             return NotImplemented
         if o2.q is not None:
             if o2.q == 0:
+                if self.q is not None and self.q == 0:
+                    return NormOverZero(R(q=Fraction(0)))     # 0/0 = nan (numpy semantics; comparisons are False)
                 raise ZeroDivisionError("symx: division by concrete zero")
             return self * R(q=1 / o2.q)
         return _cancel(self * o2.reciprocal())
@@ -882,6 +916,8 @@ class NormVal(R):
         o2 = R.of(o)
         if o2 is not None and o2.q is not None and o2.q > 0:
             return NormVal.make(self.sq / (o2.q * o2.q))
+        if o2 is not None and o2.q is not None and o2.q == 0:
+            return NormOverZero(self.sq)
         return R.__truediv__(self, o)
 
     def __mul__(self, o):
@@ -930,6 +966,35 @@ class NormVal(R):
 
     def __repr__(self):
         return "Norm<sq=%r>" % (self.sq,)
+
+
+class NormOverZero:
+    """|x| / 0 with IEEE semantics: +inf where |x| > 0, nan where |x| == 0 (all comparisons with nan are False)."""
+    def __init__(self, sq):
+        self.sq = R.of(sq)
+
+    def _pos(self):
+        return self.sq > 0
+
+    def __gt__(self, o):
+        return self._pos()
+
+    def __ge__(self, o):
+        return self._pos()
+
+    def __lt__(self, o):
+        return False
+
+    def __le__(self, o):
+        return False
+
+    def __eq__(self, o):
+        return False
+
+    def __ne__(self, o):
+        return True
+
+    __hash__ = object.__hash__
 
 
 numbers.Real.register(R)        # pyMOTO asks isinstance(x, numbers.Number) for padding values
